@@ -102,6 +102,34 @@ impl ProcPlan {
 }
 
 /// The pure formatting function of the simulated formatter (stub for rustfmt's).
+/// How many bytes of the reference text `EmitRef(p)` prints. p <= 1000: that many permille, cut
+/// anywhere. p > 1000: (p - 1000) permille, moved forward to the end of a top-level item (a line
+/// that is just `}` or ends in `;` at column 0 in pretty-printed text) - a prefix that is a
+/// complete Rust file in itself, only shorter.
+pub fn emit_ref_len(reference: &str, p: u32) -> usize {
+    let permille = if p > 1000 { (p - 1000).min(999) } else { p } as usize;
+    let mut n = (reference.len() * permille / 1000).min(reference.len());
+    while n > 0 && !reference.is_char_boundary(n) {
+        n -= 1;
+    }
+    if p > 1000 {
+        let mut at = 0;
+        let mut best = None;
+        for line in reference.split_inclusive('\n') {
+            at += line.len();
+            let top_level_end = line == "}\n" || (!line.starts_with(' ') && line.trim_end().ends_with(';'));
+            if top_level_end && at >= n && at < reference.len() {
+                best = Some(at);
+                break;
+            }
+        }
+        if let Some(b) = best {
+            n = b;
+        }
+    }
+    n
+}
+
 pub fn format_source(text: &str) -> Option<String> {
     let file = syn::parse_file(text).ok()?;
     // prettyplease panics on some verbatim input; treat that as a formatter failure.
@@ -404,11 +432,7 @@ impl SimProc {
             Op::EmitRef(permille) => {
                 self.now = t;
                 self.pc += 1;
-                let n = self.reference.len() * (permille.min(1000) as usize) / 1000;
-                let mut n = n.min(self.reference.len());
-                while n > 0 && !self.reference.is_char_boundary(n) {
-                    n -= 1;
-                }
+                let n = emit_ref_len(&self.reference, permille);
                 let bytes: Vec<u8> = self.reference.as_bytes()[..n].to_vec();
                 self.outbuf.extend(bytes);
                 self.ev('C', "emit_ref", n as i64, 0);
